@@ -28,7 +28,14 @@ RULE = ('T2: bytes(Date(t)), Date(t).gmtime, Date(tuple), Date(datetime), Date.p
 	'(bytes, compose, str, gmtime, datetime, int, copy, re-parse, the six operators against objects, texts and integers) with neighbouring instants alive at once, each step = what a fresh object gives; '
 	'var = every name of the month/day/zone tables of the parser (read at run time) in four letter cases in each form, the re-writings other senders use (one at a time and combined), '
 	'runs of blanks of 11..65536 octets before, inside and after each form; hdr2 = every header field / parameter of the header registry that carries a Date, names in three cases, read twice, '
-	'value replaced through five public ways; degenerate texts and operands; timestamps at decimal length limits')
+	'value replaced through five public ways; degenerate texts and operands; timestamps at decimal length limits. '
+	'Fifth wave: seq also with objects built from subclasses of every argument type and of Date, zoneinfo-aware and fold datetimes, several objects from the very same argument object '
+	'(argument unchanged), second objects built from the parts of the first, refused operations (20 non-dates) and run-time changes of TZ (tzset) and locale between the uses, '
+	'process configuration observed read-only; typ = one instant handed to Date(), Date.parse(), headers[k] = and Headers() as bytes/str/bytearray/memoryview/subclass/__str__ object/'
+	'dict/OrderedDict/list/tuple/generator/iterator/map/chain (the instant, or a refusal of the type); sort = sorted / reverse / min / max / index / count / bisect of lists of Dates '
+	'(unsorted, duplicates, reverse-sorted, all equal) = those of the instants; hdrs = several date-valued fields among others through eight input paths, read in every order, a refused '
+	'value first and replaced; now = Date() / prepare() stamp the present instant under zones switched at run time; rt also for every (month, day), every hour / minute / second value, '
+	'every two-digit year, every century year, 2^k and 2^k+-1 seconds / minutes / hours / days; cmp of instants one binary digit apart; blank runs of 2^k, 2^k+-1 for k = 9..16')
 EXHAUSTIVE = {'quick': False, 'thorough': False}
 TRUSTED = ['harness/tables/date.py (T1: weekday/month tables, separators and widths of Date.__compose recovered from probe instants; email._parseaddr tables; '
 	'str.isspace/isdigit/lower/int classes for U+0000-U+00FF; conversion-variant probe under TZ=Europe/Berlin)',
@@ -208,6 +215,8 @@ def impl(c):
 		return out
 	if k in ('seq', 'var', 'hdr2'):
 		return _impl4(c)
+	if k in ('typ', 'sort', 'hdrs', 'now'):
+		return _impl5(c)
 	raise ValueError(k)
 
 
@@ -219,48 +228,219 @@ def _tmf(g):
 	return [g.tm_year, g.tm_mon, g.tm_mday, g.tm_hour, g.tm_min, g.tm_sec, g.tm_wday]
 
 
-def _mkobj(spec):
-	"""a Date of instant spec[1] built the way spec[0] says (every constructor path of Date.__init__)"""
+_SUB = {}
+
+
+def _sub():
+	"""subclasses of the public argument types and of Date itself (fifth wave, class 11 / 13): defined once per worker"""
+	if _SUB:
+		return _SUB
+	import collections
+	import datetime
+	from httoop.date import Date
+
+	class SubDate(Date):
+		pass
+
+	class SlotDate(Date):
+		__slots__ = ()
+
+	class I(int):
+		pass
+
+	class F(float):
+		pass
+
+	class Bs(bytes):
+		pass
+
+	class S(str):
+		pass
+
+	class DT(datetime.datetime):
+		pass
+	_SUB.update(SubDate=SubDate, SlotDate=SlotDate, I=I, F=F, Bs=Bs, S=S, DT=DT, NT=collections.namedtuple('NT', 'year mon mday hour min sec wday yday isdst'))
+	return _SUB
+
+
+def _mkarg(spec):
+	"""the argument object from which the Date of instant spec[1] is built (every constructor path of Date.__init__ and every accepted argument type)"""
 	import datetime
 	import time
 	from httoop.date import Date
 	kind, t = spec[0], spec[1]
-	if kind == 'int':
-		return Date(t)
+	if kind in ('int', 'sub'):
+		return t
 	if kind == 'float':
-		return Date(t + spec[2])
+		return t + spec[2]
 	if kind == 'bool':
-		return Date(bool(t))
+		return bool(t)
 	if kind in WRITERS:
-		return Date(WRITERS[kind](t))
+		return WRITERS[kind](t)
 	if kind == 'str':
-		return Date(WRITERS[spec[2]](t).decode('ascii'))
-	if kind == 'parse':
-		return Date.parse(WRITERS[spec[2]](t))
+		return WRITERS[spec[2]](t).decode('ascii')
+	if kind in ('parse', 'subparse'):
+		return WRITERS[spec[2]](t)
 	if kind == 'tuple':
-		return Date(tuple(ref_civil(t)[:6]) + tuple(spec[2]))
+		return tuple(ref_civil(t)[:6]) + tuple(spec[2])
 	if kind == 'struct':
-		return Date(time.struct_time(tuple(ref_civil(t)[:6]) + tuple(spec[2])))
+		return time.struct_time(tuple(ref_civil(t)[:6]) + tuple(spec[2]))
 	if kind == 'gm':
-		return Date(time.gmtime(t))
+		return time.gmtime(t)
 	if kind == 'dt':
-		return Date(datetime.datetime(1970, 1, 1) + datetime.timedelta(seconds=t, microseconds=spec[2]))
+		return datetime.datetime(1970, 1, 1) + datetime.timedelta(seconds=t, microseconds=spec[2])
 	if kind == 'dtaware':
 		dt = datetime.datetime(1970, 1, 1, tzinfo=datetime.timezone.utc) + datetime.timedelta(seconds=t, microseconds=spec[3])
-		return Date(dt.astimezone(datetime.timezone(datetime.timedelta(minutes=spec[2]))))
+		return dt.astimezone(datetime.timezone(datetime.timedelta(minutes=spec[2])))
 	if kind == 'copy':
-		return Date(Date(t))
+		return Date(t)
+	# fifth wave: argument TYPE variants
+	S = _sub()
+	if kind == 'isub':
+		return S['I'](t)
+	if kind == 'fsub':
+		return S['F'](t + spec[2])
+	if kind == 'bsub':
+		return S['Bs'](WRITERS[spec[2]](t))
+	if kind == 'ssub':
+		return S['S'](WRITERS[spec[2]](t).decode('ascii'))
+	if kind == 'nt':
+		return S['NT'](*(tuple(ref_civil(t)[:6]) + tuple(spec[2])))
+	if kind == 'tupn':  # a time tuple of 6, 7 or 8 members (calendar.timegm reads six)
+		return (tuple(ref_civil(t)[:6]) + (0, 1))[:spec[2]]
+	if kind == 'dtsub':
+		y, m, d, hh, mi, ss, _ = ref_civil(t)
+		return S['DT'](y, m, d, hh, mi, ss, spec[2])
+	if kind == 'dtzi':  # aware datetime of a zone with daylight-saving rules (fold is set by fromtimestamp in the repeated hour)
+		import zoneinfo
+		return datetime.datetime.fromtimestamp(t, zoneinfo.ZoneInfo(spec[2]))
+	if kind == 'dtfold':  # naive datetime (UTC by the documented convention of Date) whose fold attribute is set
+		return (datetime.datetime(1970, 1, 1) + datetime.timedelta(seconds=t)).replace(fold=1)
+	if kind == 'subcopy':
+		return S[spec[2]](t)
 	raise ValueError(kind)
+
+
+def _mkobj(spec, arg=None):
+	"""a Date of instant spec[1] built the way spec[0] says"""
+	from httoop.date import Date
+	if arg is None:
+		arg = _mkarg(spec)
+	kind = spec[0]
+	if kind == 'parse':
+		return Date.parse(arg)
+	if kind == 'sub':
+		return _sub()[spec[2]](arg)
+	if kind == 'subparse':
+		return _sub()[spec[3]].parse(arg)
+	return Date(arg)
+
+
+def _same(a, b):
+	"""is the argument object a still what a newly built one (b) is"""
+	import datetime
+	import time
+	from httoop.date import Date
+	if type(a) is not type(b):
+		return False
+	if isinstance(a, Date):
+		return float(a) == float(b)
+	if isinstance(a, datetime.datetime):
+		return a == b and a.utcoffset() == b.utcoffset() and a.fold == b.fold and a.microsecond == b.microsecond and a.tzinfo == b.tzinfo
+	if isinstance(a, time.struct_time):
+		return tuple(a) == tuple(b) and a.tm_zone == b.tm_zone and a.tm_gmtoff == b.tm_gmtoff
+	if isinstance(a, float):
+		return repr(a) == repr(b)
+	return a == b
 
 
 def _six(a, b):
 	return [bool(a < b), bool(a > b), bool(a == b), bool(a != b), bool(a <= b), bool(a >= b)]
 
 
-def _step(objs, specs, st):
+# operations every correct reader of HTTP dates refuses (class 12): none of the arguments is a date in any of the three forms or a supported argument type
+REFUSED = [('parse', b'junk'), ('parse', b''), ('parse', b'Sun, 32 Foo 1994 08:49:37 GMT'), ('parse', b'Sun, 06 Nov 1994'), ('parse', b'08:49:37 GMT'), ('parse', None),
+	('ctor', b'junk'), ('ctor', 'not a date'), ('ctor', b'Sat, 01 Jan 10000 00:00:00 GMT'), ('ctor', 'Sunday, 06-Nov-94'), ('ctor', (1, 2)), ('ctor', ('a', 'b', 'c', 'd', 'e', 'f', 0, 1, 0)),
+	('ctor', [1994, 11, 6, 8, 49, 37, 6, 310, 0]), ('ctor', 10 ** 400), ('ctor', object), ('ctor', {}), ('ctor', 1j), ('parse', 784111777), ('parse', b'\xff\xfe'), ('ctor', '\u2468 Nov 1994 08:49:37 GMT')]
+
+
+def _cfg():
+	"""the process configuration a Date operation has no business changing (read-only observer)"""
+	import locale
+	import time
+	return [locale.setlocale(locale.LC_TIME), locale.setlocale(locale.LC_ALL), os.environ.get('TZ'), list(time.tzname), time.timezone, time.altzone, time.daylight]
+
+
+_BASE = {}
+
+
+def _basecfg():
+	"""the configuration the process was started with (taken once, before the first case: a change made by an earlier case must not go unnoticed)"""
+	if 'cfg' not in _BASE:
+		_BASE['cfg'] = _cfg()
+	return _BASE['cfg']
+
+
+def _gmtoff():
+	import time
+	return [time.localtime(962409600).tm_gmtoff, time.localtime(1326240000).tm_gmtoff]
+
+
+def _step5(objs, specs, st, env):
+	"""fifth-wave uses of the object objs[st[0]]"""
+	import locale
+	import time
 	from httoop.date import Date
 	d = objs[st[0]]
 	op = st[1]
+	if op == 'A':  # aliasing: a second Date built from a part of this one, used; both must be what fresh objects are
+		part = st[2]
+		x = d if part == 'self' else d.datetime if part == 'dt' else d.gmtime if part == 'gm' else d.compose() if part == 'comp' else str(d) if part == 'str' else int(d) if part == 'int' else float(d)
+		e = Date(x)
+		return [bytes(e).hex(), int(e), _tmf(e.gmtime), bytes(d).hex(), int(d), _tmf(d.gmtime)]
+	if op == 'R':  # a refused operation, called through the live object; the following steps go on using the objects
+		how, arg = REFUSED[st[2]]
+		if arg is object:
+			arg = object()
+		try:
+			r = d.parse(arg) if how == 'parse' else type(d)(arg)
+		except Exception:
+			return 'refused'
+		return 'accepted:%r' % (_guard(lambda: int(r)),)
+	if op == 'L':
+		return _cfg() == env['cfg']
+	if op == 'Z':  # the zone of the process changes during the life of the objects
+		os.environ['TZ'] = st[2]
+		time.tzset()
+		env['cfg'] = _cfg()
+		return _gmtoff()
+	if op == 'LC':
+		locale.setlocale(locale.LC_ALL, st[2])
+		env['cfg'] = _cfg()
+		return 'ok'
+	if op == 'arg':  # the argument object the Date was built from is unchanged
+		return _same(env['args'][st[0]], _mkarg(specs[st[0]]))
+	if op == 'F':
+		return ['{}'.format(d), '%s' % (d,), format(d, '>31'), (b'%b' % (d,)).hex()]
+	if op == 'T':
+		return type(d).__name__
+	if op == 'J':  # operands that are no dates: whatever the answers are (observation (e) of the report), the object must not change by being asked
+		for x in (b'junk', None, object(), b'', 'Sun, 32 Foo 1994 08:49:37 GMT', 10 ** 400, [], b'Sat, 01 Jan 10000 00:00:00 GMT'):
+			for f in (lambda: d == x, lambda: d != x, lambda: d < x, lambda: d > x, lambda: d <= x, lambda: d >= x):
+				try:
+					f()
+				except Exception:
+					pass
+		return 'asked'
+	raise ValueError(op)
+
+
+def _step(objs, specs, st, env=None):
+	from httoop.date import Date
+	d = objs[st[0]]
+	op = st[1]
+	if op in ('A', 'R', 'L', 'Z', 'LC', 'arg', 'F', 'T', 'J'):
+		return _step5(objs, specs, st, env)
 	if op == 'b':
 		return bytes(d).hex()
 	if op == 'c':
@@ -303,11 +483,29 @@ def _impl4(c):
 	from httoop.date import Date
 	k = c['k']
 	if k == 'seq':
+		import locale
+		import time
+		tz0, lc0 = os.environ.get('TZ'), locale.setlocale(locale.LC_ALL)
+		env = {'cfg': _basecfg(), 'args': []}
 		try:
-			objs = [_mkobj(s) for s in c['objs']]
-		except Exception as exc:
-			return {'s': None, 'err': 'constructor: %s' % type(exc).__name__}
-		return {'s': [_guard(lambda: _step(objs, c['objs'], st)) for st in c['steps']]}
+			try:
+				memo = {}
+				for s in c['objs']:
+					key = json.dumps(s)
+					# class 10: objects of one case whose specification is identical are built from the very same argument object
+					arg = memo[key] if c.get('share') and key in memo else _mkarg(s)
+					memo[key] = arg
+					env['args'].append(arg)
+				objs = [_mkobj(s, a) for s, a in zip(c['objs'], env['args'])]
+			except Exception as exc:
+				return {'s': None, 'err': 'constructor: %s' % type(exc).__name__}
+			return {'s': [_guard(lambda: _step(objs, c['objs'], st, env)) for st in c['steps']]}
+		finally:
+			if os.environ.get('TZ') != tz0:
+				os.environ['TZ'] = tz0
+				time.tzset()
+			if locale.setlocale(locale.LC_ALL) != lc0:
+				locale.setlocale(locale.LC_ALL, lc0)
 	if k == 'var':
 		text = bytes.fromhex(c['d']) if 'd' in c else _pad_text(c)
 		out = {'r': _R(lambda: Date.parse(text)), 'r2': _R(lambda: Date(text)), 'cc': _RB(lambda: bytes(Date(text)))}
@@ -367,6 +565,17 @@ def _hdr2(c):
 		out.append(int(e2))
 		out.append(int(e))
 		out.append(int(Headers({c['name']: v1}).element(c['name'])))
+		if c.get('alias'):  # class 10: a second Headers built from the first / from the caller's mapping, changed: the first and the mapping stay
+			v3 = bytes.fromhex(c['v3'])
+			h2 = Headers(h)
+			h2[c['name']] = v3
+			out.append([int(h2.element(c['name'])), int(h.element(c['name'])), int(e2)])
+			src = {c['name']: v1}
+			h3, h4 = Headers(src), Headers(src)
+			h3[c['name']] = v3
+			e4 = h4.element(c['name'])
+			del h3[c['name']]
+			out.append([int(h4.element(c['name'])), int(e4), src == {c['name']: v1}])
 		return out
 	pnames = ['creation-date', 'modification-date'] if mode == 'cd' else ['expires']
 	attrs = ['creation_date', 'modification_date'] if mode == 'cd' else ['expires']
@@ -384,7 +593,229 @@ def _hdr2(c):
 	e.params[pnames[0]] = v2.decode('ascii')  # the value replaced on the live element: the property must follow
 	out.append(int(getattr(e, attrs[0])))
 	out.append(int(getattr(h.element(c['name']), attrs[0])))
+	if c.get('alias'):  # class 10: a second element built from the parts of the first (and two from one caller's mapping), changed: the first stays
+		v3 = bytes.fromhex(c['v3']).decode('ascii')
+		mk = (lambda p: type(e)(e.value, p)) if mode == 'cd' else (lambda p: type(e)(e.cookie_name, e.cookie_value, p))
+		e2 = mk(e.params)
+		e2.params[pnames[0]] = v3
+		out.append([int(getattr(e2, attrs[0])), int(getattr(e, attrs[0]))])
+		src = {pnames[0]: v1.decode('ascii')}
+		e3, e4 = mk(src), mk(src)
+		e3.params[pnames[0]] = v3
+		out.append([int(getattr(e3, attrs[0])), int(getattr(e4, attrs[0])), src == {pnames[0]: v1.decode('ascii')}])
+		e3.params.clear()
+		out.append(int(getattr(e4, attrs[0])))
 	return out
+
+
+# ---- fifth-wave kinds (classes 10-17 of DESIGN.md section 8)
+def _T(f):
+	"""an instant, or the refusal of the argument TYPE (TypeError / AttributeError), or any other outcome by name"""
+	try:
+		return int(f())
+	except (TypeError, AttributeError):
+		return 'type-refusal'
+	except Exception as exc:
+		return 'exc:%s' % type(exc).__name__
+
+
+def _typ(c):
+	"""one instant in one form handed to every public entry point as every argument type"""
+	import collections
+	import datetime
+	import decimal
+	import fractions
+	import itertools
+	from httoop import Headers
+	from httoop.date import Date
+	S = _sub()
+	t, t2 = c['t'], c['t2']
+	text = WRITERS[c['f']](t)
+	u = text.decode('ascii')
+	civ = tuple(ref_civil(t)[:6]) + (0, 1, 0)
+	name = c['name']
+	pairs = [('Host', b'example.org'), (name, text), ('ETag', b'"x"')]
+
+	class WStr(object):
+		def __str__(self):
+			return u
+
+		def __bytes__(self):
+			return text
+	el = lambda h: h.element(name)  # noqa: E731
+
+	def hset(v):
+		h = Headers()
+		h[name] = v
+		return el(h)
+	V = {
+		'D:bytes': lambda: Date(text), 'D:str': lambda: Date(u), 'D:bsub': lambda: Date(S['Bs'](text)), 'D:ssub': lambda: Date(S['S'](u)),
+		'D:bytearray': lambda: Date(bytearray(text)), 'D:memoryview': lambda: Date(memoryview(text)), 'D:wstr': lambda: Date(WStr()),
+		'P:bytes': lambda: Date.parse(text), 'P:bsub': lambda: Date.parse(S['Bs'](text)), 'P:bytearray': lambda: Date.parse(bytearray(text)),
+		'P:memoryview': lambda: Date.parse(memoryview(text)), 'P:str': lambda: Date.parse(u), 'P:ssub': lambda: Date.parse(S['S'](u)), 'P:wstr': lambda: Date.parse(WStr()),
+		'D:int': lambda: Date(t), 'D:float': lambda: Date(float(t)), 'D:isub': lambda: Date(S['I'](t)), 'D:fsub': lambda: Date(S['F'](t)),
+		'D:Fraction': lambda: Date(fractions.Fraction(t)), 'D:Decimal': lambda: Date(decimal.Decimal(t)),
+		'D:tuple': lambda: Date(civ), 'D:nt': lambda: Date(S['NT'](*civ)), 'D:list': lambda: Date(list(civ)), 'D:gen': lambda: Date(x for x in civ), 'D:iter': lambda: Date(iter(civ)),
+		'D:map': lambda: Date(map(int, civ)), 'D:chain': lambda: Date(itertools.chain(civ[:3], civ[3:])),
+		'H:bytes': lambda: hset(text), 'H:str': lambda: hset(u), 'H:bsub': lambda: hset(S['Bs'](text)), 'H:ssub': lambda: hset(S['S'](u)),
+		'H:bytearray': lambda: hset(bytearray(text)), 'H:memoryview': lambda: hset(memoryview(text)), 'H:Date': lambda: hset(Date(t)), 'H:wstr': lambda: hset(WStr()),
+		'HD:dict': lambda: el(Headers(dict(pairs))), 'HD:odict': lambda: el(Headers(collections.OrderedDict(pairs))), 'HD:list': lambda: el(Headers(list(pairs))),
+		'HD:tuple': lambda: el(Headers(tuple(pairs))), 'HD:hdrs': lambda: el(Headers(Headers(pairs))), 'HD:gen': lambda: el(Headers(p for p in pairs)),
+		'HD:iter': lambda: el(Headers(iter(pairs))), 'HD:items': lambda: el(Headers(dict(pairs).items())), 'HD:map': lambda: el(Headers(map(tuple, pairs))),
+		'HD:chain': lambda: el(Headers(itertools.chain(pairs[:1], pairs[1:]))), 'HD:strvals': lambda: el(Headers([(k, v.decode('ascii')) for k, v in pairs])),
+		'HD:update': lambda: el(_upd(Headers(), (p for p in pairs))), 'HD:updatedict': lambda: el(_upd(Headers(), dict(pairs))),
+	}
+	out = {}
+	for key in c['v']:
+		if key.startswith('eq:') or key.startswith('req:'):
+			op = {'bytes': text, 'str': u, 'bsub': S['Bs'](text), 'ssub': S['S'](u)}[key.split(':')[1]]
+			out[key] = _guard(lambda: _six(Date(t2), op) if key.startswith('eq:') else _six(op, Date(t2)))
+		else:
+			out[key] = _T(V[key])
+	return out
+
+
+def _upd(h, x):
+	h.update(x)
+	return h
+
+
+def _sortcase(c):
+	"""ORDER (class 14): sorting, extremes, searching of lists of Date objects must be those of the instants"""
+	import bisect
+	objs = [_mkobj(s) for s in c['objs']]
+	idx = dict((id(o), i) for i, o in enumerate(objs))
+	ix = lambda lst: [idx[id(o)] for o in lst]  # noqa: E731
+	pk = c['probe']
+	probe = _mkobj(pk[1]) if pk[0] == 'obj' else WRITERS[pk[2]](pk[1][1]) if pk[0] == 'bytes' else WRITERS[pk[2]](pk[1][1]).decode('ascii') if pk[0] == 'str' else pk[1][1]
+	out = {}
+	out['sorted'] = _guard(lambda: ix(sorted(objs)))
+	out['rsorted'] = _guard(lambda: ix(sorted(objs, reverse=True)))
+	lst = list(objs)
+	out['sort'] = _guard(lambda: (lst.sort(), ix(lst))[1])
+	out['min'] = _guard(lambda: idx[id(min(objs))])
+	out['max'] = _guard(lambda: idx[id(max(objs))])
+	out['index'] = _guard(lambda: objs.index(probe) if probe in objs else -1)
+	out['count'] = _guard(lambda: objs.count(probe))
+	so = sorted(objs, key=lambda o: c['objs'][idx[id(o)]][1])  # sorted by the instants known to the harness
+	out['bisect'] = _guard(lambda: [bisect.bisect_left(so, probe), bisect.bisect_right(so, probe)])
+	out['after'] = _guard(lambda: [int(o) for o in objs])
+	return out
+
+
+RAWDATE = ('Date', 'Expires', 'If-Range', 'Retry-After')
+
+
+def _hdrs(c):
+	"""feature interaction (class 15): several date-valued fields among other fields, fed through every input path, read in every order; a refused field first (class 12)"""
+	import collections
+	from httoop import Headers
+	from httoop.date import Date
+	fields = [(n, bytes.fromhex(v)) for n, v in c['fields']]
+	mode = c['in']
+	h = Headers()
+	if mode == 'block':
+		h.parse(b'\r\n'.join(n.encode('ascii') + b': ' + v for n, v in fields))
+	elif mode == 'lines':
+		for n, v in fields:
+			h.parse(n.encode('ascii') + b': ' + v)
+	elif mode == 'dict':
+		h = Headers(dict(fields))
+	elif mode == 'odict':
+		h = Headers(collections.OrderedDict(fields))
+	elif mode == 'pairs':
+		h = Headers(fields)
+	elif mode == 'gen':
+		h = Headers((n, v) for n, v in fields)
+	elif mode == 'setitem':
+		for n, v in fields:
+			h[n] = v
+	elif mode == 'update':
+		h.update(collections.OrderedDict((n, v.decode('ascii')) for n, v in fields))
+	else:
+		raise ValueError(mode)
+	out = []
+	for st in c['reads']:
+		op, n = st[0], st[1]
+		if op == 'el':
+			out.append(_guard(lambda: int(h.element(n))))
+		elif op == 'bad':  # must be refused; nothing else may change
+			try:
+				out.append('accepted:%r' % (int(h.element(n)),))
+			except Exception:
+				out.append('refused')
+		elif op == 'raw':
+			out.append(_guard(lambda: [int(Date(h[n])), int(Date(h.element(n).value)), int(Date.parse(h[n].encode('ascii')))]))
+		elif op == 'eq':
+			out.append(_guard(lambda: [bool(h.element(n) == h.element(st[2])), bool(h.element(n) != h.element(st[2])), bool(h.element(n) == bytes.fromhex(st[3])), bool(h.element(n) == st[4]), bool(h.element(n) == Date(st[4]))]))
+		elif op == 'set':
+			out.append(_guard(lambda: (h.__setitem__(n, bytes.fromhex(st[2])), 'ok')[1]))
+		elif op == 'other':  # a field that is not a date stays what it was
+			out.append(_guard(lambda: h[n]))
+		else:
+			raise ValueError(op)
+	return {'s': out}
+
+
+def _now(c):
+	"""Date() without argument is the present instant, serialised in GMT: text = IMF-fixdate of int(), both within a few seconds of the clock of the standard library"""
+	import time
+	from httoop.date import Date
+	tz0 = os.environ.get('TZ')
+	try:
+		if c.get('zone'):
+			os.environ['TZ'] = c['zone']
+			time.tzset()
+		before = int(time.time())
+		via = c['via']
+		if via == 'ctor':
+			d = Date()
+			text, ti = bytes(d), int(d)
+		elif via == 'none':
+			d = Date(None)
+			text, ti = d.compose(), int(d)
+		else:
+			from httoop import Request, Response
+			if via == 'response':
+				from httoop.semantic.response import ComposedResponse
+				res, req = Response(), Request()
+				ComposedResponse(res, req).prepare()
+				text = res.headers['Date'].encode('ascii')
+			else:
+				from httoop.semantic.request import ComposedRequest
+				req = Request()
+				req.method = 'POST'
+				req.body = b'x'
+				ComposedRequest(req).prepare()
+				text = req.headers['Date'].encode('ascii')
+			ti = None
+		after = int(time.time())
+		near = [n for n in range(before - 1, after + 2) if ref_imf(n) == text]
+		return {'len': len(text), 'text-is-a-near-instant': bool(near), 'int-is-that-instant': ti is None or ti in near, 'gmtoff': _gmtoff() if c.get('zone') else None}
+	finally:
+		if os.environ.get('TZ') != tz0:
+			os.environ['TZ'] = tz0
+			time.tzset()
+
+
+def _impl5(c):
+	k = c['k']
+	if k == 'typ':
+		return _typ(c)
+	if k == 'sort':
+		return _guard2(lambda: _sortcase(c))
+	if k == 'hdrs':
+		return _guard2(lambda: _hdrs(c))
+	if k == 'now':
+		return _guard2(lambda: _now(c))
+	raise ValueError(k)
+
+
+def _guard2(f):
+	try:
+		return f()
+	except Exception as exc:
+		return {'failed': '%s: %s' % (type(exc).__name__, str(exc)[:200])}
 
 
 def worker_main():
@@ -394,6 +825,7 @@ def worker_main():
 		locale.setlocale(locale.LC_ALL, '')
 	except locale.Error:
 		pass
+	_basecfg()
 	sys.stdout.write(json.dumps({'ready': [time.localtime(962409600).tm_gmtoff, time.localtime(1326240000).tm_gmtoff], 'lc_time': locale.setlocale(locale.LC_TIME)}) + '\n')
 	sys.stdout.flush()
 	for line in sys.stdin:
@@ -752,6 +1184,7 @@ def gen_cases(rng, tier):
 			cases.append({'k': 'hdr', 'name': rng.choice(['If-Modified-Since', 'If-Unmodified-Since', 'Last-Modified']), 'd': s.encode('ascii').hex()})
 	# appended last so that the cases above stay what they were for a given seed
 	cases.extend(_wave4(rng, tier, inst))
+	cases.extend(_wave5(rng, tier, inst))
 	return cases
 
 
@@ -1020,6 +1453,314 @@ def _wave4(rng, tier, inst):
 	return out
 
 
+# ------------------------------------------------------------------ fifth wave: classes 10-17 of DESIGN.md section 8
+TYP_MUST = ('D:bytes', 'D:str', 'D:bsub', 'D:ssub', 'P:bytes', 'P:bsub', 'D:int', 'D:float', 'D:isub', 'D:fsub', 'D:tuple', 'D:nt', 'H:bytes', 'H:str', 'H:bsub', 'H:ssub',
+	'HD:dict', 'HD:odict', 'HD:list', 'HD:tuple', 'HD:hdrs', 'HD:strvals', 'HD:updatedict')
+# accepted or refused as a TYPE (TypeError / AttributeError) - never another instant, never another error.
+# (Not in the list on purpose: comparison operators against bytearray / memoryview / objects with __str__: Date.__other turns every operand it cannot
+# convert into the epoch - observation (e) of the report, not a date by the property's text - so there is no expectation to state.)
+TYP_MAY = ('D:bytearray', 'D:memoryview', 'D:wstr', 'P:bytearray', 'P:memoryview', 'P:str', 'P:ssub', 'P:wstr', 'D:Fraction', 'D:Decimal', 'D:list', 'D:gen', 'D:iter', 'D:map', 'D:chain',
+	'H:bytearray', 'H:memoryview', 'H:Date', 'H:wstr', 'HD:gen', 'HD:iter', 'HD:items', 'HD:map', 'HD:chain', 'HD:update')
+TYP_EQ = ('eq:bytes', 'eq:str', 'eq:bsub', 'eq:ssub', 'req:bytes', 'req:str', 'req:bsub', 'req:ssub')
+CMP_HEADERS = ('If-Modified-Since', 'If-Unmodified-Since', 'Last-Modified')
+FILLERS = [('Host', 'example.org'), ('ETag', '"x"'), ('Range', 'bytes=0-9'), ('If-None-Match', '"x"'), ('Accept', '*/*'), ('X-Date', None), ('Content-Length', '29'), ('Cache-Control', 'max-age=29')]
+BADDATES = [b'junk', b'Sun, 32 Foo 1994 08:49:37 GMT', b'Sun, 06 Nov 1994', b'08:49:37 GMT', b'Sat, 01 Jan 10000 00:00:00 GMT', b'0', b'Sun,']
+ZONES = [z for z, _ in CONFIGS]
+
+
+def _wave5(rng, tier, inst):
+	big = tier == 'thorough'
+	out = []
+	in850 = [t for t in inst if t <= MAX_T_850]
+	forms = ['imf', '850', 'asc']
+
+	def fm(t):
+		return rng.choice(forms if t <= MAX_T_850 else ['imf', 'asc'])
+
+	# (16) value-dependent branches: every (month, day) with the clock stepping through every hour, minute and second value (7 and 11 are prime to 60),
+	# every two-digit year of the RFC 850 range, every century year at the end of February
+	sweep = set()
+	k = rng.randrange(60)
+	ly = rng.choice([y for y in range(1972, 2068, 4)])
+	fy = rng.choice([y for y in range(2069, 10000) if not is_leap(y)])
+	for y, days in ((ly, None), (fy, None if big else (1, 2, 9, 10, 11, 19, 20, 21, 28, 29, 30, 31))):
+		for m in range(1, 13):
+			n = MDAYS[m - 1] + (1 if m == 2 and is_leap(y) else 0)
+			for d in range(1, n + 1):
+				k += 1
+				if days is None or d in days:
+					sweep.add(ref_timegm(y, m, d, k % 24, k * 7 % 60, k * 11 % 60))
+	for y in range(1970, 2069):
+		sweep.add(ref_timegm(y, rng.randint(1, 12), rng.randint(1, 28), rng.randrange(24), rng.randrange(60), rng.randrange(60)))
+	# fields of one text that carry the same number (day = hour, day = two-digit year, minute = second, all of them, ...): a reader that finds a field by its value is misled
+	for v in range(1, 24):
+		sweep.add(ref_timegm(2000 + v, rng.randint(1, 12), v, v, v, v))
+		sweep.add(ref_timegm(rng.choice([1900, 2100, 5500]) + v, v % 12 + 1, v, v, v, v))
+	for v in (1, 9, 10, 12, 19, 20, 23, 28):
+		y0 = rng.choice([1970, 2000, 2040, 7300])
+		for fld in ([v, v, None, None], [v, None, v, None], [v, None, None, v], [None, v, v, None], [None, v, None, v], [None, None, v, v], [v, v, v, None], [None, v, v, v]):
+			if fld[1] is not None and fld[1] > 23:
+				continue
+			d, hh, mi, ss = [x if x is not None else rng.choice([0, 31 if i == 0 else 47, 5, 13]) or 1 for i, x in enumerate(fld)]
+			sweep.add(ref_timegm(y0 + rng.randrange(29), rng.choice([1, 3, 5, 7, 8, 10, 12]), d, hh % 24, mi, ss))
+		sweep.add(ref_timegm(2000 + v, v % 12 + 1, rng.randint(1, 28), rng.randrange(24), rng.randrange(60), rng.randrange(60)))  # two-digit year = month number
+		sweep.add(ref_timegm(2000 + v, rng.randint(1, 12), v, rng.randrange(24), rng.randrange(60), rng.randrange(60)))  # two-digit year = day
+	for y in range(2100, 10000, 100):
+		t0 = ref_timegm(y, 3, 1, 0, 0, 0)
+		sweep.update([t0 - 1, t0, t0 - 86400, t0 - 86401] if big else [rng.choice([t0 - 1, t0, t0 - 86400])])
+	# (17) boundary arithmetic: instants, days, hours and minutes since the epoch at 2^k and 2^k +- 1 (k up to the end of the range), multiples of 2^9 .. 2^16
+	for unit in (1, 60, 3600, 86400):
+		for kk in range(0, 39):
+			for dlt in (-1, 0, 1):
+				sweep.add((2 ** kk + dlt) * unit)
+				if unit > 1 and dlt == 0:
+					sweep.add(2 ** kk * unit - 1)
+	for kk in range(9, 17):
+		m = rng.randint(1, MAX_T // 2 ** kk)
+		sweep.update([m * 2 ** kk - 1, m * 2 ** kk, m * 2 ** kk + 1])
+	have = set(inst)
+	for n, t in enumerate(sorted(sweep)):
+		if 0 <= t <= MAX_T and t not in have:
+			c = {'k': 'rt', 't': t}
+			if n % 3 and not big:  # cost: the oracle states every one of them, the model is asked about a third
+				c['nocoq'] = 1
+			out.append(c)
+	cmpforms = [('int', None), ('dtext', ref_imf), ('dtext', ref_asc), ('text', ref_imf), ('text', ref_asc)]
+	for kk in range(0, 38):  # two instants that differ in one binary digit only (a truncated or wrapped timestamp makes them equal)
+		for rep in range(4 if big else 2):
+			ta = rng.choice(inst) if rep else rng.randrange(2 ** kk)
+			tb = ta ^ (2 ** kk)
+			if not (0 <= ta <= MAX_T and 0 <= tb <= MAX_T):
+				continue
+			if rng.random() < 0.5:
+				ta, tb = tb, ta
+			fa, fb = rng.choice(cmpforms[:3]), rng.choice(cmpforms)
+			out.append({'k': 'cmp', 'a': ['int', ta] if fa[1] is None else [fa[0], fa[1](ta).hex()], 'b': ['int', tb] if fb[1] is None else [fb[0], fb[1](tb).hex()], 'ta': ta, 'tb': tb})
+	# (17) runs of blanks whose length is 2^k, 2^k +- 1 for k = 9 .. 16 (those not yet in the fourth-wave list)
+	for n in [511, 512, 513, 1025, 2047, 2048, 2049, 4097, 8193, 16383, 16384, 16385, 32767, 32768, 32769, 65537]:
+		for form in forms:
+			t = rng.choice(in850)
+			toks = _tokens(t, form)
+			poss = ['lead', 'trail'] + list(range(len(toks) - 1))
+			for pos in (poss if big else [rng.choice(poss)]):
+				c = {'k': 'var', 't': t, 'toks': toks, 'pos': pos, 'n': n, 'ch': '\t' if rng.random() < 0.2 else ' ', 'why': 'length:%s:%s:%d' % (form, pos, n), 'exp': True}
+				if n <= 1100:
+					c['d'] = _pad_text(c).hex()
+				out.append(c)
+	# (10) (11) (12) (13) (15): objects built from every argument type, several from the very same argument object, second objects built from their parts,
+	# refused operations in between, the zone and the locale of the process changed during their life; every step = what a fresh object gives
+	shifts = [0, 0, 1, -1, 2, 60, -60, 3600, -3600, 86400, -86400, 7 * 86400, 365 * 86400, 36524 * 86400, 146097 * 86400]
+	tails = [[0, 1, 0], [6, 366, 1], [0, 0, -1], [3, 1, 1], [2, 59, 1]]
+	# instants inside the repeated local hour (half hour) of each zone: fromtimestamp() gives them fold = 1
+	folds = []
+	for zone in ZONES[1:]:
+		import datetime
+		import zoneinfo
+		z = zoneinfo.ZoneInfo(zone)
+		for t0 in _transitions(zone, 1972, 2038):
+			for dlt in (0, 1, 599, 1799):
+				if datetime.datetime.fromtimestamp(t0 + dlt, z).fold:
+					folds.append((zone, t0 + dlt))
+	for n in range(4500 if big else 500):
+		base = rng.choice(inst)
+		fold = rng.choice(folds) if folds and n % 8 == 0 else None
+		if fold:
+			base = fold[1]
+		specs = []
+		for j in range(rng.choice([1, 2, 2, 3, 4])):
+			t = base if j == 0 else base + rng.choice(shifts)
+			if not 0 <= t <= MAX_T:
+				t = base
+			if fold and j == 0:
+				specs.append(['dtzi', t, fold[0]])
+				continue
+			kinds = ['int', 'imf', 'asc', 'str', 'parse', 'tuple', 'struct', 'gm', 'dt', 'copy', 'isub', 'bsub', 'ssub', 'nt', 'tupn', 'dtsub', 'dtfold', 'sub', 'subparse', 'subcopy']
+			if t <= MAX_T_850:
+				kinds += ['850']
+			if t < 2 ** 40:
+				kinds += ['float', 'fsub']
+			if 2 * 86400 <= t <= MAX_T - 2 * 86400:
+				kinds += ['dtaware', 'dtzi', 'dtzi']
+			kd = rng.choice(kinds)
+			sp = [kd, t]
+			if kd in ('float', 'fsub'):
+				sp.append(rng.choice([0.0, 0.25, 0.5, 0.75]))
+			elif kd in ('str', 'parse', 'bsub', 'ssub'):
+				sp.append(fm(t))
+			elif kd in ('tuple', 'struct', 'nt'):
+				wd = ref_civil(t)[6]
+				sp.append(rng.choice(tails + [[wd, 1, 0], [wd, 200, 1]]))
+			elif kd == 'tupn':
+				sp.append(rng.choice([6, 7, 8]))
+			elif kd in ('dt', 'dtsub'):
+				sp.append(rng.choice([0, 0, 1, 500000, 999999]))
+			elif kd == 'dtaware':
+				sp.append(rng.choice([0, 60, 120, -300, 330, 630, -660, 840, 765, -1]))
+				sp.append(rng.choice([0, 0, 999999]))
+			elif kd == 'dtzi':
+				sp.append(rng.choice(ZONES[1:]))
+			elif kd in ('sub', 'subcopy'):
+				sp.append(rng.choice(['SubDate', 'SlotDate']))
+			elif kd == 'subparse':
+				sp.append(fm(t))
+				sp.append(rng.choice(['SubDate', 'SlotDate']))
+			specs.append(sp)
+		share = rng.random() < 0.5
+		if share:  # two (or three) objects from the very same argument object
+			for _ in range(rng.choice([1, 1, 2])):
+				specs.insert(rng.randrange(len(specs) + 1), list(rng.choice(specs)))
+		aware = ('dtaware', 'dtzi')
+		steps = []
+		for _ in range(rng.randint(6, 12)):
+			i = rng.randrange(len(specs))
+			op = rng.choice(['b', 'b', 'c', 'u', 'g', 'd', 'i', 'y', 'p', 'P', 'N', 'cmp', 'cmpt', 'cmpi', 'A', 'A', 'A', 'R', 'R', 'J', 'Z', 'LC', 'L', 'F', 'T', 'arg'])
+			if op == 'd' and specs[i][0] in aware:
+				op = 'g'
+			st = [i, op]
+			if op == 'P':
+				st.append(fm(specs[i][1]))
+			elif op in ('cmp', 'cmpt', 'cmpi'):
+				j = rng.randrange(len(specs))
+				st.append(j)
+				if op == 'cmpt':
+					st.append(fm(specs[j][1]))
+			elif op == 'A':
+				st.append(rng.choice(['self', 'dt', 'gm', 'comp', 'str', 'int', 'float']))
+			elif op == 'R':
+				st.append(rng.randrange(len(REFUSED)))
+			elif op == 'Z':
+				st.append(rng.choice(ZONES))
+			elif op == 'LC':
+				st.append(rng.choice(['C', 'POSIX', 'C.UTF-8']))
+			steps.append(st)
+			if op in ('R', 'J', 'Z', 'LC'):  # right after: the configuration of the process, the object concerned and a fresh parse / compose
+				steps.append([i, 'L'])
+				steps.append([i, rng.choice(['b', 'g', 'p', 'P', 'N', 'i'])] if rng.random() < 0.8 else [i, 'cmpt', rng.randrange(len(specs)), 'imf'])
+				if steps[-1][1] == 'P':
+					steps[-1].append(fm(specs[i][1]))
+		for i in range(len(specs)):
+			steps.append([i, 'b'])
+			steps.append([i, 'arg'])
+		steps.append([0, 'L'])
+		out.append({'k': 'seq', 'objs': specs, 'steps': steps, 'share': share, 'w5': 1})
+	# (11) one instant handed to every public entry point as every argument type
+	for n in range(1800 if big else 200):
+		f = rng.choice(forms)
+		t = rng.choice(in850 if f == '850' else inst)
+		t2 = rng.choice([t, t, t - 1, t + 1, rng.choice(inst)])
+		t2 = min(max(t2, 0), MAX_T)
+		nm = rng.choice(CMP_HEADERS)
+		nm = rng.choice([nm, nm, nm.lower(), nm.upper()])
+		out.append({'k': 'typ', 't': t, 't2': t2, 'f': f, 'name': nm, 'v': list(TYP_MUST + TYP_MAY + TYP_EQ) if big or n < 12 else sorted(rng.sample(TYP_MUST, 8) + rng.sample(TYP_MAY, 9) + rng.sample(TYP_EQ, 3))})
+	# (14) order: lists of Date objects (unsorted, duplicates, reverse-sorted, all equal) sorted, searched, their extremes
+	ctor = [['int'], ['imf'], ['asc'], ['str', 'imf'], ['parse', 'asc'], ['tuple', [0, 1, 0]], ['gm'], ['dt', 0], ['copy'], ['sub', 'SubDate'], ['float', 0.5], ['isub']]
+	for n in range(2000 if big else 220):
+		base = rng.choice(inst)
+		m = rng.choice([2, 3, 5, 8, 12])
+		pat = n % 6
+		if pat == 0:
+			ts = [rng.choice(inst) for _ in range(m)]
+		elif pat == 1:
+			ts = [base + rng.choice([-2, -1, 0, 0, 1, 2]) for _ in range(m)]
+		elif pat == 2:
+			ts = sorted((base + rng.choice(shifts) for _ in range(m)), reverse=True)
+		elif pat == 3:
+			ts = [base] * m
+		elif pat == 4:
+			ts = sorted(base + rng.choice(shifts) for _ in range(m))
+		else:
+			ts = [base + rng.choice([0, 3600, -3600, 86400, 2 ** 31, -2 ** 31, 2 ** 32, -2 ** 32]) for _ in range(m)]
+		ts = [t if 0 <= t <= MAX_T else base for t in ts]
+		objs = []
+		for t in ts:
+			kd = rng.choice(ctor)
+			objs.append([kd[0], t] + kd[1:])
+		tp = rng.choice(ts) if rng.random() < 0.7 else min(max(base + rng.choice([-1, 1, 7]), 0), MAX_T)
+		pk = rng.choice(['obj', 'obj', 'bytes', 'str', 'int'])
+		out.append({'k': 'sort', 'objs': objs, 'probe': [pk, ['int', tp], rng.choice(['imf', 'asc'])]})
+	# (15) (12) (14) several date-valued fields among other fields, every input path, every reading order; a refused value first, then replaced
+	for n in range(2200 if big else 240):
+		names = list(CMP_HEADERS) + list(RAWDATE)
+		rng.shuffle(names)
+		names = names[:rng.randint(2, len(names))]
+		if not any(x in CMP_HEADERS for x in names):
+			names.append(rng.choice(CMP_HEADERS))
+		base = rng.choice(inst)
+		fields, inst_of, others = [], {}, {}
+		bad = rng.choice([x for x in names if x in CMP_HEADERS]) if rng.random() < 0.4 else None
+		mode = rng.choice(['block', 'lines', 'dict', 'odict', 'pairs', 'gen', 'setitem', 'update'])
+		for x in names:
+			t = rng.choice([base, base, min(max(base + rng.choice(shifts), 0), MAX_T), rng.choice(inst)])
+			inst_of[x] = t
+			spelt = rng.choice([x, x, x.lower(), x.upper()]) if mode in ('block', 'lines') else x
+			fields.append([spelt, (rng.choice(BADDATES) if x == bad else WRITERS[fm(t)](t)).hex()])
+		for x, v in rng.sample(FILLERS, rng.randint(1, 4)):
+			v = ref_imf(rng.choice(inst)).decode() if v is None else v
+			others[x] = v
+			fields.insert(rng.randrange(len(fields) + 1), [x, v.encode('ascii').hex()])
+		reads, want = [], []
+		order = [x for x in names for _ in range(2)] + list(others)
+		rng.shuffle(order)
+		good = lambda x: x != bad  # noqa: E731
+		for x in order:
+			if x in others:
+				reads.append(['other', x])
+				want.append(others[x])
+			elif x == bad and x in CMP_HEADERS:
+				reads.append(['bad', x])
+				want.append('refused')
+			elif x in CMP_HEADERS:
+				if rng.random() < 0.5:
+					reads.append(['el', rng.choice([x, x.lower()])])
+					want.append(inst_of[x])
+				else:
+					y = rng.choice([z for z in names if z in CMP_HEADERS and good(z)])
+					tt = rng.choice([inst_of[x], inst_of[y], inst_of[x] + 1])
+					tt = min(tt, MAX_T)
+					reads.append(['eq', x, y, WRITERS[fm(tt)](tt).hex(), tt])
+					want.append([inst_of[x] == inst_of[y], inst_of[x] != inst_of[y], inst_of[x] == tt, inst_of[x] == tt, inst_of[x] == tt])
+			else:
+				reads.append(['raw', x])
+				want.append([inst_of[x]] * 3)
+		if bad:
+			t = min(max(base + rng.choice(shifts), 0), MAX_T)
+			reads.append(['set', bad, WRITERS[fm(t)](t).hex()])
+			want.append('ok')
+			inst_of[bad] = t
+			for x in names:
+				if x in CMP_HEADERS:
+					reads.append(['el', x])
+					want.append(inst_of[x])
+			for x in others:
+				reads.append(['other', x])
+				want.append(others[x])
+		out.append({'k': 'hdrs', 'in': mode, 'fields': fields, 'reads': reads, 'want': want})
+	# (10) date-valued fields and parameters: a second Headers / element built from the first or from the caller's mapping, changed; the first and the mapping stay
+	hows = ['setitem', 'set', 'delparse', 'popsetdefault', 'update']
+	for name, mode in _registries()[3]:
+		for rep in range(12 if big else 4):
+			f1, f2, f3 = rng.choice(forms), rng.choice(forms), rng.choice(forms)
+			t = rng.choice(in850)
+			t2, t3 = [min(max(t + rng.choice([-1, 1, 60, 3600, -86400, 86400 * 365]), 0), MAX_T_850) for _ in range(2)]
+			if t2 == t3:
+				t3 = t2 + 1 if t2 < MAX_T_850 else t2 - 1
+			c = {'k': 'hdr2', 'name': rng.choice([name, name.lower()]), 'mode': mode, 't': t, 't2': t2, 't3': t3, 'v1': WRITERS[f1](t).hex(), 'v2': WRITERS[f2](t2).hex(), 'v3': WRITERS[f3](t3).hex(), 'alias': 1}
+			if mode == 'plain':
+				c['how'] = hows[rep % len(hows)]
+			else:
+				c['quoted'] = True
+				c['pupper'] = False
+			out.append(c)
+	# the present instant: Date(), Date(None), the Date field prepare() adds to a response and to a request with a body, under every zone switched to at run time
+	for zone in [None] + ZONES:
+		for via in ('ctor', 'none', 'response', 'request'):
+			c = {'k': 'now', 'via': via}
+			if zone:
+				c['zone'] = zone
+			out.append(c)
+	return out
+
+
 # ------------------------------------------------------------------ Coq literals
 def Z(n):
 	return '(%d)%%Z' % n
@@ -1056,6 +1797,8 @@ def coq_case(c, o):
 		if None in ps or r['p'][3] != r['p'][0] or r['p'][4] != r['p'][0]:
 			return DISAGREE
 		t = c['t']
+		if c.get('nocoq'):
+			return None
 		return 'CRt %s %s %s %s %s %s %s' % (Z(t), X(bytes.fromhex(r['c'])), X(ref_850(t)), X(ref_asc(t)), ps[0], ps[1], ps[2])
 	if k == 'compose':
 		if r['c'] is None:
@@ -1111,7 +1854,7 @@ def coq_case(c, o):
 				terms.append('CCmp (DInt %s) (DText %s) (Some (mkCmps %s))' % (Z(t), X(WRITERS[st[3]](c['objs'][st[2]][1])), ' '.join(B(v) for v in x)))
 			elif op in ('cmp', 'cmpi'):
 				terms.append('CCmp (DInt %s) (DInt %s) (Some (mkCmps %s))' % (Z(t), Z(c['objs'][st[2]][1]), ' '.join(B(v) for v in x)))
-		return terms[:4]  # the oracle states every step; the model is asked about a few (cost)
+		return terms[:2 if c.get('w5') else 4]  # the oracle states every step; the model is asked about a few (cost)
 	return None
 
 
@@ -1137,6 +1880,16 @@ def _describe(c):
 		return 'the uses %r of the Date objects %r' % (c['steps'], c['objs'])
 	if k == 'hdr2':
 		return 'the %s field carrying %r, then %r' % (c['name'], bytes.fromhex(c['v1']), bytes.fromhex(c['v2']))
+	if k == 'typ':
+		return 'instant %d as %r in every argument type' % (c['t'], WRITERS[c['f']](c['t']))
+	if k == 'sort':
+		return 'sorting / searching the Date objects %r' % (c['objs'],)
+	if k == 'hdrs':
+		return 'the fields %r given as %s' % ([(a, bytes.fromhex(b)) for a, b in c['fields']], c['in'])
+	if k == 'now':
+		return 'the present instant through %s%s (the text must be the IMF-fixdate of an instant within a second of time.time(), 29 octets)' % (
+			{'ctor': 'bytes(Date()) / int(Date())', 'none': 'Date(None).compose()', 'response': "ComposedResponse.prepare() -> headers['Date']", 'request': "ComposedRequest.prepare() of a POST with a body -> headers['Date']"}[c['via']],
+			' after os.environ[TZ] = %r; time.tzset()' % c['zone'] if c.get('zone') else '')
 	return k
 
 
@@ -1160,6 +1913,24 @@ def _seq_want(c, st):
 		return t
 	if op == 'y':
 		return [ref_imf(t).hex(), t, ref_imf(t).hex()]
+	if op == 'A':
+		return [ref_imf(t).hex(), t, list(ref_civil(t))] * 2
+	if op == 'R':
+		return 'refused'
+	if op in ('L', 'arg'):
+		return True
+	if op == 'Z':
+		return EXPECT_GMTOFF[st[2]]
+	if op == 'LC':
+		return 'ok'
+	if op == 'J':
+		return 'asked'
+	if op == 'F':
+		u = ref_imf(t).decode('ascii')
+		return [u, u, u.rjust(31), ref_imf(t).hex()]
+	if op == 'T':
+		sp = c['objs'][st[0]]
+		return sp[2] if sp[0] == 'sub' else sp[3] if sp[0] == 'subparse' else 'Date'
 	tb = c['objs'][st[2]][1]
 	return [t < tb, t > tb, t == tb, t != tb, t <= tb, t >= tb]
 
@@ -1224,6 +1995,8 @@ def oracle(c, o):
 		for key in ('r', 'r2'):
 			if isinstance(r[key], str) and r[key].startswith('escape:'):
 				return 'Date.parse(%r) / Date(text) lets %s escape (not InvalidDate)' % (bytes.fromhex(c['d']), r[key][7:])
+		if r['r2'] != r['r']:  # the same octets through the two entry points, one after the other
+			return 'Date.parse(%r) gives %r, Date(the same octets) right after gives %r' % (bytes.fromhex(c['d']), r['r'], r['r2'])
 		return None
 	if k == 'var':
 		t = c['t']
@@ -1256,15 +2029,65 @@ def oracle(c, o):
 			want = [t, t2, t, t2, t2, t]
 		else:
 			want = [t, t, t2, t]
+		if c.get('alias'):
+			t3 = c['t3']
+			want += [[t3, t2, t2], [t, t, True]] if c['mode'] == 'plain' else [[t3, t2], [t3, t, True], t]
 		if r['s'] != want:
 			return '%s (%s): instants read [%s] = %r, required %r' % (_describe(c), c.get('how', 'parameter replaced'), c['mode'], r['s'], want)
 		return None
+	if k in ('typ', 'sort', 'hdrs', 'now'):
+		return _oracle5(c, r)
 	if k == 'hdr':
 		if 't' in c:
 			if r['r'] != c['t']:
 				return 'int(%s element) of instant %d gives %r' % (c['name'], c['t'], r['r'])
 			if r.get('eq') != [True, True, True, False]:
 				return '%s element of instant %d: equality with [Date(t), t, text, Date(t+1)] = %r' % (c['name'], c['t'], r.get('eq'))
+		return None
+	return None
+
+
+def _oracle5(c, r):
+	k = c['k']
+	if 'failed' in r:
+		return '%s: unexpected exception %s' % (_describe(c), r['failed'])
+	if k == 'typ':
+		t, t2 = c['t'], c['t2']
+		text = WRITERS[c['f']](t)
+		for key in c['v']:
+			x = r.get(key)
+			if key in TYP_EQ:
+				a, b = (t2, t) if key.startswith('eq:') else (t, t2)
+				want = [a < b, a > b, a == b, a != b, a <= b, a >= b]
+				if x != want:
+					return 'comparison %s of Date(%d) and the text %r as %s: [<, >, ==, !=, <=, >=] = %r, the instants %d and %d give %r' % (
+						'date-op-text' if key.startswith('eq:') else 'text-op-date', t2, text, key.split(':')[1], x, a, b, want)
+			elif x != t and not (key in TYP_MAY and x == 'type-refusal'):
+				return 'instant %d (%s) written as %r and handed over as %s [D: Date(x), P: Date.parse(x), H: headers[%r] = x, HD: Headers(x)] gives %r%s' % (
+					t, ref_imf(t).decode(), text, key, c['name'], x, ' (allowed: the instant, or TypeError / AttributeError for the type)' if key in TYP_MAY else '')
+		return None
+	if k == 'sort':
+		ts = [s[1] for s in c['objs']]
+		tp = c['probe'][1][1]
+		n = len(ts)
+		st = sorted(ts)
+		import bisect
+		want = {'sorted': sorted(range(n), key=lambda i: ts[i]), 'rsorted': sorted(range(n), key=lambda i: ts[i], reverse=True), 'sort': sorted(range(n), key=lambda i: ts[i]),
+			'min': ts.index(min(ts)), 'max': ts.index(max(ts)), 'index': ts.index(tp) if tp in ts else -1, 'count': ts.count(tp),
+			'bisect': [bisect.bisect_left(st, tp), bisect.bisect_right(st, tp)], 'after': ts}
+		for key in sorted(want):
+			if r.get(key) != want[key]:
+				return 'list of Date objects %r, probe %r: %s gives %r, the instants give %r' % (c['objs'], c['probe'], key, r.get(key), want[key])
+		return None
+	if k == 'hdrs':
+		for n, (st, x, w) in enumerate(zip(c['reads'], r['s'], c['want'])):
+			if x != w:
+				return 'fields %r given as %s: read %d %r gives %r, required %r (all reads: %r)' % ([(a, bytes.fromhex(b)) for a, b in c['fields']], c['in'], n, st, x, w, c['reads'])
+		return None
+	if k == 'now':
+		want = {'len': 29, 'text-is-a-near-instant': True, 'int-is-that-instant': True, 'gmtoff': EXPECT_GMTOFF[c['zone']] if c.get('zone') else None}
+		if r != want:
+			return '%s: %r, required %r' % (_describe(c), r, want)
 		return None
 	return None
 
